@@ -8,7 +8,7 @@ switch on a value whose provenance has no decision yet simply forks.
 """
 from .prov import (
     mk_field, mk_vfield, mk_phi, ckey, call_fn, subterms, term_str,
-    IDENT0, UNWRAP_OK, UNWRAP_SOME, CLONE, TAKE, WRAP, MAPERR, RESOK, UNWRAP_OR, BOXLIKE, LOCKS, TRY_LOCKS, MAPOK, TRYBRANCH, FROMRESIDUAL, mk_trybranch,
+    IDENT0, UNWRAP_OK, UNWRAP_SOME, CLONE, TAKE, WRAP, MAPERR, RESOK, OPTOK, UNWRAP_OR, BOXLIKE, LOCKS, TRY_LOCKS, MAPOK, TRYBRANCH, FROMRESIDUAL, mk_trybranch,
 )
 from .program import Site
 
@@ -248,6 +248,8 @@ class PathEnum:
                 return ("mapok", a0, args[1])
             if ck in RESOK:
                 return ("resok", a0)
+            if ck in OPTOK:
+                return ("optok", a0)
             if ck in UNWRAP_OR and len(args) == 2:
                 return mk_phi([mk_vfield(a0, "Ok" if "Result" in ck else "Some", 0), args[1]])
             if ck in IDENT0:
@@ -453,7 +455,7 @@ class PathEnum:
                             ev.inlined = True
                             ev.result = None
                             p2.events.append(ev)
-                            cenv = {1: clo[0], 2: ("vfield", args[0], "Some", 0)}
+                            cenv = {1: clo[0], 2: mk_vfield(args[0], "Some", 0)}
                             fr = frames + ((body, env, consts, discr_src, t["dest"], t["target"], cb, bb),)
                             stack.append((0, cenv, {}, decisions + ([(key, "Some")] if prev is None else []), visits, p2, {}, fr))
                         continue
@@ -491,7 +493,7 @@ class PathEnum:
                             ev.inlined = True
                             ev.result = res_t
                             p2.events.append(ev)
-                            cenv = {1: clo[0], 2: ("vfield", args[0], "Err", 0)}
+                            cenv = {1: clo[0], 2: mk_vfield(args[0], "Err", 0)}
                             fr = frames + ((body, env, consts, discr_src, t["dest"], t["target"], cb, bb, res_t),)
                             stack.append((0, cenv, {}, decisions + ([(key, "Err")] if prev is None else []), visits, p2, {}, fr))
                         continue
@@ -583,6 +585,13 @@ class PathEnum:
                     # `res.ok()`: Some <=> the Result was Ok, None <=> it was Err
                     key = norm_key(("discr", key[1][1]))
                     relabel = {"Some": "Ok", "None": "Err"}
+                elif key[0] == "discr" and key[1][0] == "trybranch" and key[1][1][0] == "optok":
+                    # `opt.ok_or_else(..)?`: Continue <=> the Option was Some
+                    key = norm_key(("discr", key[1][1][1]))
+                    relabel = {"Continue": "Some", "Break": "None"}
+                elif key[0] == "discr" and key[1][0] == "optok":
+                    key = norm_key(("discr", key[1][1]))
+                    relabel = {"Ok": "Some", "Err": "None"}
                 taken = discr_src.get("__taken__", frozenset())
                 if key[0] == "discr" and key[1][0] == "take":
                     # Option::take returns the old content: same discriminant as the place had
